@@ -477,6 +477,21 @@ def run(shard, ctx):
             dev = harness.Recorder(E.sbc)
             s = harness.make_facade(dev)
             attempt(ctx, "persistentreserveout", klass, ("ValueError",), lambda: harness.facade_call(c, s, DO.fresh(a)), dev, wit)
+            if i % 3 == 0:
+                # the same request with the service action in another spelling (its name in the operation code's table, the number
+                # as text, a member of an int subclass): whether or not the spelling is understood, an inconsistent TransportID does
+                # not get through - refused with some error, nothing sent
+                sa_name = {0: "REGISTER", 7: "REGISTER_AND_MOVE"}[sa]
+                for spelled in (sa_name, sa_name.lower(), str(sa), harness.IntSub(sa), float(sa)):
+                    a3 = dict(a, service_action=spelled)
+                    dev3 = harness.Recorder(E.sbc)
+                    s3 = harness.make_facade(dev3)
+                    wit3 = {"args": a3, "class": klass, "service_action_spelled": repr(spelled)}
+                    ctx.count("service_actions_in_other_spellings")
+                    attempt(ctx, "persistentreserveout", klass + ".service_action_spelled_%s" % type(spelled).__name__, ("ValueError", "TypeError", "KeyError", "AttributeError"),
+                            lambda: harness.facade_call(c, s3, DO.fresh(a3)), dev3, wit3)
+                    attempt(ctx, "PersistentReserveOut", klass + ".service_action_spelled_%s" % type(spelled).__name__, ("ValueError", "TypeError", "KeyError", "AttributeError"),
+                            lambda: harness.construct(c, "spc", DO.fresh(a3)), None, wit3)
             # valid neighbour
             tv = D.strip_private(D.gen_transport_id(rng, rng.choice(["iscsi0", "iscsi1"]), nl))
             kw2 = dict(kw)
